@@ -81,6 +81,11 @@ pub struct OpReport {
     pub trace: Vec<DiskOp>,
     pub after_logs: LogSet,
     pub model_after: Option<Model>,
+    /// mutating calls seen while the account was being opened (before the
+    /// observed operation): must be empty for the pairing of twin and crash
+    /// runs to be exact
+    #[serde(default)]
+    pub open_trace: Vec<DiskOp>,
 }
 
 #[derive(serde::Serialize, serde::Deserialize)]
@@ -104,9 +109,12 @@ pub async fn run_op_job(job: OpJob) {
     let kind = if job.db { BackendKind::Db } else { BackendKind::Fs };
     let account_id: sos_core::AccountId = job.account_id.parse().expect("account id");
     let password: SecretString = job.password.clone().into();
+    interpose::disk_watch(&[job.dir.as_path()], true, false);
     let mut dev = Device::open_existing("d0", &job.dir, kind, account_id, password)
         .await
         .expect("open device for crash op");
+    let open_trace = interpose::disk_take_trace();
+    interpose::disk_unwatch();
     dev.model = job.model.clone();
     // identical randomness and clock in the twin and in every crash run
     interpose::reseed_main(job.seed ^ 0xC4A5_0000);
@@ -122,7 +130,7 @@ pub async fn run_op_job(job: OpJob) {
     let trace = interpose::disk_take_trace();
     interpose::disk_unwatch();
     let after_logs = no::device_logs(&dev).await.unwrap_or_default();
-    let rep = OpReport { class, trace, after_logs, model_after: Some(dev.model.clone()) };
+    let rep = OpReport { class, trace, after_logs, model_after: Some(dev.model.clone()), open_trace };
     std::fs::write(&job.out, serde_json::to_vec(&rep).unwrap()).expect("write report");
 }
 
@@ -222,8 +230,7 @@ pub async fn execute(plan: Plan, dir: &Path) -> RunOutcome {
         tokio::task::yield_now().await;
         let snap = dir.join(format!("snap{idx}"));
         let _ = std::fs::remove_dir_all(&snap);
-        wait_sqlite_closed(&base);
-        if copy_dir_all(&base, &snap).is_err() {
+        if snapshot_dir(&base, &snap).await.is_err() {
             let _ = dev.open().await;
             continue;
         }
@@ -256,6 +263,12 @@ pub async fn execute(plan: Plan, dir: &Path) -> RunOutcome {
             continue;
         };
         let n = twin_rep.trace.len() as u64;
+        if !twin_rep.open_trace.is_empty() {
+            rec.stats.probe("c13.writes_while_opening_the_account");
+            if std::env::var("SOSSIM_TRACE").is_ok() {
+                eprintln!("open trace: {:?}", twin_rep.open_trace.iter().map(|o| format!("{}@{}:{}", o.kind, o.path, o.len)).collect::<Vec<_>>());
+            }
+        }
         rec.stats.count_n("c13.mutating_steps", n);
         if !(twin_rep.class == "ok") || n == 0 {
             // the operation is a no-op / error in this state: nothing to crash
